@@ -30,7 +30,7 @@ def run(ctx):
             jobs.append(Job("c09.py", "h_damaged", {"kind": "truncate", "lo": lo, "hi": hi, "doc": di}, T, 60, tag=f"truncate doc#{di} offsets {lo}..{hi}", meta={"twin": lo == 0 and di == 2, "sigtag": "truncate"}))
     for k in ("nonjson", "structure", "dir"):
         jobs.append(Job("c09.py", "h_damaged", {"kind": k}, T, 60, tag=k, meta={"sigtag": k}))
-    ctx.bounds = {"truncation": f"{n_off} (document, offset, pretty/compact) crash points: documents of {ndoc} characters", "non-JSON texts": 12, "structural faults": "every JSON path of two documents x {delete, replace by null / int / string / list / object / bool / float}",
+    ctx.bounds = {"truncation": f"{n_off} (document, offset, pretty/compact) crash points: documents of {ndoc} characters", "non-JSON texts": "17 texts incl. non-UTF-8 bytes, an over-long number literal, deep nesting, an overflowing float", "structural faults": "every JSON path of two documents x {delete, replace by null / int / string / list / object / bool / float}",
                   "directory states": "dir absent | dir x marker files x cache file"}
     ctx.run_xh(jobs)
     ctx.extra["exhaustive"] = not ctx.quick()
